@@ -247,3 +247,33 @@ def r16_6(ctx):
                     "considered sent although the neighbor is unresolved)", body=d, bb=hit[0]['bb'])
         else:
             ctx.ok(('dispatch', 'err-path-clean'), sample=dict(fn='tcp::dispatch', on_emit_error='no sequence variable written'))
+
+
+@rule('R16.7', ['C16', 'C11'], floor=1, clause='a cache entry\'s lifetime is extended by passing traffic only when the frame\'s link-layer source equals the cached hardware address')
+def r16_7(ctx):
+    F = ctx.F
+    b = ctx.method(NC, 'reset_expiry_if_existing')
+    ws = [w for w in F.field_writes() if w['fn'] == b.key and w['kind'] == 'store' and w['adt'] == NB and w['field'] == 'expires_at']
+    if not ws:
+        # the store goes through the `&mut Neighbor` obtained from get_mut: find deref stores of Instant type
+        for bi, bl in enumerate(b.blocks):
+            if bl['cl']:
+                continue
+            for si, s in enumerate(bl['s']):
+                if s[0] == 'a' and s[1][1] and s[1][1][0] == '*' and 'Instant' in (b.local_ty(s[1][0]) or ''):
+                    ws.append(dict(bb=bi))
+    ctx.need(ws, "expires_at refresh in reset_expiry_if_existing")
+
+    def same_hw(f):
+        if f[0] == 'rel' and f[1] == 'Eq':
+            a, c = leafs(f[2]), leafs(f[3])
+            hw = lambda ls: any(l.startswith('F:') and l.endswith('.hardware_addr') for l in ls)
+            return ('A:3' in a and hw(c)) or ('A:3' in c and hw(a))
+        return False
+    for w in ws:
+        bad = unguarded(F, b, [w['bb']], same_hw)
+        if bad:
+            ctx.bad("reset_expiry_if_existing|hw-mismatch", "a neighbor entry is refreshed by a frame whose link-layer source differs from the cached address "
+                    "(a spoofed or moved host keeps a stale mapping alive beyond 60 s)", body=b, bb=w['bb'], path=bad[0][1])
+        else:
+            ctx.ok(('reset_expiry_if_existing', 'same-hw'), sample=dict(fn='reset_expiry_if_existing', guard='source_hardware_addr == entry.hardware_addr'))
